@@ -21,8 +21,12 @@ int main(int argc, char** argv) {
     o.strategy = (it % 4 == 3) ? dsched::PCT : dsched::RANDOM;
     o.stickiness = 15 + (int)rng.below(75);
     int nthreads = (int)rng.range(2, 4), ops = (int)rng.range(2, 6);
-    size_t chunk = 16, k = 1 + rng.below(4), allocSize = chunk * k;
-    std::string desc = "poolalloc threads=" + std::to_string(nthreads) + " ops=" + std::to_string(ops) + " k=" + std::to_string(k) + " seed=" + std::to_string(o.seed);
+    // mostly tiny slabs; one case in four uses a slab of 64 KiB or more, one in four an odd chunk size
+    static const size_t chunkSizes[] = {16, 16, 24, 13, 16384, 65536, 16, 40};
+    size_t chunk = chunkSizes[rng.below(8)], k = 1 + rng.below(chunk == 16384 ? 6 : chunk > 16384 ? 2 : 4);
+    if (chunk == 16384 && k < 4) k = 4;
+    size_t allocSize = chunk * k;
+    std::string desc = "poolalloc threads=" + std::to_string(nthreads) + " ops=" + std::to_string(ops) + " k=" + std::to_string(k) + " chunk=" + std::to_string(chunk) + " seed=" + std::to_string(o.seed);
     auto& c = dsh::stuckCtx();
     c.signature = "PoolAllocator alloc/dealloc never returns";
     c.detail = desc;
@@ -65,7 +69,7 @@ int main(int argc, char** argv) {
     });
     ++cases;
     if (bad) std::printf("PFAIL PoolAllocator concurrent exclusivity violated | %s why=%s\n", desc.c_str(), badWhy.c_str());
-    std::printf("NT t%d o%d k%zu\n", nthreads, ops, k);
+    std::printf("NT t%d o%d k%zu c%zu\n", nthreads, ops, k, chunk);
     dsh::emitTrace("palloc", desc);
   }
   std::printf("STAT cases %lld\n", cases);
